@@ -200,4 +200,23 @@ def triCircumcircle2 (a b c : V2 K) : V2 K × K :=
 def triPerimeter3 (a b c : V3 K) : K := (b.sub a).norm + (c.sub b).norm + (a.sub c).norm
 def triPerimeter2 (a b c : V2 K) : K := (b.sub a).norm + (c.sub b).norm + (a.sub c).norm
 
+/-! ## `Segment::{length, direction}` (`src/shape/segment.rs`) — `trim`-style three legs in C20's own stream (`segm2` / `segm3`) -/
+
+/-- `Segment::length`: `(b - a).norm()` -/
+def segLength3 (a b : V3 K) : K := (b.sub a).norm
+def segLength2 (a b : V2 K) : K := (b.sub a).norm
+
+/-- `DEFAULT_EPSILON` = `f64::EPSILON` -/
+def segEps : K := lit 1 4503599627370496
+
+/-- `Segment::direction`: `Unit::try_new(b - a, DEFAULT_EPSILON)` — `None` for a (nearly) zero-length segment -/
+def segDirection3 (a b : V3 K) : Option (V3 K) :=
+  let v := b.sub a
+  let sqn := v.normSq
+  if segEps * segEps < sqn then some (v.sdiv (Num.sqrt sqn)) else none
+def segDirection2 (a b : V2 K) : Option (V2 K) :=
+  let v := b.sub a
+  let sqn := v.normSq
+  if segEps * segEps < sqn then some (v.sdiv (Num.sqrt sqn)) else none
+
 end Model
